@@ -6,6 +6,7 @@ cd /verif
 ids=("$@"); [ ${#ids[@]} -eq 0 ] && ids=($(ls seeded))
 for id in "${ids[@]}"; do
   prop=${id%%[-_]*}
+  [ -f seeded/$id/obsolete.txt ] && { echo "skipped $id: no longer property-breaking on the current tree (seeded/$id/obsolete.txt)"; continue; }
   extra=$(cat seeded/$id/extra_checks.txt 2>/dev/null)
   patch=seeded/$id/patch.diff
   # a seed whose original patch no longer builds after a repair of /repo carries an adapted version
